@@ -1,2 +1,4 @@
 // crate root (stand-in for src/lib.rs: re-exports only)
 use vstd::prelude::*;
+// platform assumption: 64-bit (the pinned test-suite and Kani runs are x86_64)
+global size_of usize == 8;
